@@ -32,7 +32,7 @@ META.update({
 META.update({
  "C09": dict(engine="native (+asan in thorough)", category="exploration",
    technique="runtime monitoring: burst / quiesce / stable-state probe (/proc thread state, FIONREAD, SigPnd) + offline accounting of deliveries vs yields; real deliveries nested on the consumer at its failpoints",
-   text="At every stable point (hundreds per quick run, tens of thousands in thorough) a delivered watched signal without a later yield, with the consumer blocked on an empty self-pipe, is a refutation that does not depend on timing. Covers wait, forever and the non-blocking poll interface, three exfiltrators, add_signal from another thread.",
+   text="At every stable point (hundreds per quick run, tens of thousands in thorough) a delivered watched signal - or any signal for which the instance's own action ran, also in the middle of an add_signal - without a later yield, with the consumer blocked on an empty self-pipe, is a refutation that does not depend on timing; a Pending result of poll_signal without an armed wake-up (callback not consulted / last answer not 'nothing') is reported as well. Covers wait, forever and the non-blocking poll interface, three exfiltrators, add_signal from two threads at once with a delivery nested in it.",
    note="unbounded 'eventually' restated as absence of the stable lost state; windows are widened at hook sites only"),
  "C10": dict(engine="native (+asan in thorough)", category="exploration",
    technique="runtime monitoring: unique per-delivery sequence numbers, independent witness action copying each siginfo, online accounting rules over the event log",
@@ -48,29 +48,29 @@ META.update({
 META.update({
  "C12": dict(engine="native forked probes (+valgrind in thorough)", category="exploration",
    technique="runtime monitoring: generated operation scripts in forked children checked step by step against a reference model (hook counts, FIONREAD, fd table, waitpid status)",
-   text="Hundreds (quick) to thousands (thorough) of scripts per exfiltrator; every rejected number in [-2,130] plus extreme integers is used as the rejected step. Found and, after the fix: commits, guards against: poisoned id table, abort in a failing constructor, double slot initialisation.",
+   text="Thousands of scripts per exfiltrator; every rejected number in [-2,130] plus extreme integers is used as the rejected step; a real delivery is raised inside the drop of the last owner (write end must still be open); two threads add the same signal concurrently (must end up watched once, nothing left after the drop). Found and, after the fix: commits, guards against: poisoned id table, abort in a failing constructor, double slot initialisation.",
    note="sequential scripts (the property is about sequences); expected outcome classes are those of this kernel and glibc"),
 })
 META.update({
  "C13": dict(engine="native forked probes + strace", category="exploration",
    technique="runtime monitoring: failpoint count of wake attempts per delivery, byte accounting, fcntl/fd-table probes, /proc syscall probe for a blocked delivery, strace trace checked per delivery bracket and per descriptor",
-   text="15 (kind, fill) scenarios with >1000 deliveries each, rejected registrations, invalid descriptors and thousands of register/unregister cycles with number reuse; the strace oracle sees the actual write/sendto/close syscalls.",
+   text="15 (kind, fill) scenarios with >1000 deliveries each, rejected registrations, invalid descriptors and thousands of register/unregister cycles with number reuse; the strace oracle sees the actual write/sendto/close syscalls; the iterator's own write end is covered by instance scripts with a delivery raised during the owner's drop.",
    note="a blocked delivery is decided from the child's stable syscall state, not from a timeout"),
  "C14": dict(engine="native forked probes (+valgrind in thorough)", category="exploration",
    technique="complete enumeration of (entry point x signal number x context) in forked children with the kernel, sigaction(2) and the fd table as oracles",
-   text="The finite grid (4480 cases) is run completely in both tiers; each case checks the outcome class and, after a refusal, that dispositions, registry, captured state and descriptors are as before and the entry point still works.",
+   text="The finite grid (about 5500 cases: 16 entry points x 140 numbers x 3 contexts incl. 'after an unchecked registration of the same number') is run completely in both tiers; each case checks the outcome class and, after a refusal, that dispositions, registry, captured state and descriptors are as before and the entry point still works; strace flags a second close of a handed-over descriptor.",
    note="classes come from this kernel/glibc and the published FORBIDDEN list"),
  "C15": dict(engine="native forked probes", category="exploration",
    technique="generated sequential scripts in forked children with waitpid status and marker pipe against the script's own model; complete grid of the double-Ctrl-C recipe up to length 6",
-   text="Every arm/disarm history up to length 6 in both registration orders plus hundreds to tens of thousands of random scripts over all exit statuses, signals and both conditional actions.",
+   text="Every arm/disarm history up to length 6 in both registration orders plus thousands of random scripts over all exit statuses, signals and both conditional actions, half of them in multi-threaded children (a shutdown that ends only the delivering thread is seen by a second thread).",
    note="sequential scripts only (the property is about sequences)"),
  "C16": dict(engine="native forked probes", category="exploration",
    technique="paired forked probes (kernel default vs emulation) over the complete signal-number grid in three contexts, waitpid(WUNTRACED) as oracle",
-   text="Complete in both tiers. Found the SIGIO mismatch on Linux (fixed by a fix: commit).",
+   text="Complete in both tiers: 70 numbers x 5 contexts (plain, inside own action, blocked, another signal blocked and pending, on a non-main thread). Found the SIGIO mismatch on Linux (fixed by a fix: commit).",
    note="oracle is this kernel; process group arranged to be non-orphaned"),
  "C17": dict(engine="native forked probes", category="exploration",
    technique="exhaustive synthetic record grid against an independent table + real sends through every mechanism with the raw record cross-read by libc accessors",
-   text="17408 synthetic records (every cause code the extractor distinguishes and 250 it must not) and ~285 real (mechanism, signal) probes including children, timers and SIGPIPE.",
+   text="69632 synthetic records (every cause code the extractor distinguishes and 250 it must not, each with 4 pid/uid variants incl. legitimate zeros) and ~285 real (mechanism, signal) probes including children, timers and SIGPIPE; the driver forces a rebuild when extract.c changes (cargo does not track it).",
    note="kernel and glibc of this sandbox are the ground truth"),
 })
 META.update({
@@ -80,8 +80,8 @@ META.update({
    note="arrival instants = hook sites deterministically + random bombardment; chaining cannot be run under Miri"),
  "C05": dict(engine="native forked probes", category="exploration",
    technique="runtime monitoring against an executable reference model (per-signal ordered Vec of (id, tag)) with a delivery after every operation; sigaction(2) and a blocked read(2) as kernel oracles",
-   text="About 100k operations per quick run (millions in thorough) over 16 seeds on up to 55 signals; every delivery's ordered run list must equal the model's.",
-   note="sequential histories only"),
+   text="About 320k operations per quick run (millions in thorough) over 16 seeds on up to 55 signals; every delivery's ordered run list must equal the model's. A second mode runs 3 owner threads with disjoint signals and one model each: what one thread does to its signals must never change another thread's (catches lost updates between writers).",
+   note="per-signal histories are sequential (single owner per signal); job-control signals are left out of the concurrent mode because the kernel discards pending stop signals when SIGCONT is generated"),
 })
 META.update({
  "C03": dict(engine="native forked probes + strace + counting allocator", category="fault_enumeration",
